@@ -20,6 +20,10 @@
     KF6  `sizeExceedsU16`                   (`cols ≥ 65535` or `rows > 65535`: the numbers `dump()` writes —
                                              cursor address, tab stops, margins, REP counts, saved
                                              positions — are read back modulo 2^16)
+    KF7  `parkedCtxExceedsU16`              (the primary screen is showing and the parked saved cursor position
+                                             of the ALTERNATE screen — which no resize clamps — is `≥ 65535`:
+                                             `dump()` writes it as `CSI row;col H`, read back modulo 2^16;
+                                             found while proving dump steps 4–6)
   A failure is attributed to a finding only when the difference is confined to what that finding
   can disturb; every other difference is an unclassified `C11:` failure.
 -/
@@ -154,8 +158,17 @@ def cursorStepFaithful (t : Terminal) : Bool :=
     are `cols ≤ 65534`, `rows ≤ 65535`. -/
 def sizeExceedsU16 (t : Terminal) : Bool := decide (t.cols ≥ 65535) || decide (t.rows > 65535)
 
+/-- KF7: the primary screen is showing and the saved cursor context of the ALTERNATE screen (parked in
+    `alternate_saved_ctx`, not in its default state, so `dump()` re-creates it with `CSI row+1 ; col+1 H` on
+    the alternate screen) holds a position at or beyond the 16-bit parameter range.  `Terminal::resize`
+    clamps only the ACTIVE saved context, so such a position survives a later resize of the primary screen
+    to any size: the classifier is independent of the current size (`sizeExceedsU16` may be false). -/
+def parkedCtxExceedsU16 (t : Terminal) : Bool :=
+  t.activeBufferType == .primary && !t.alternateSavedCtx.isDefault
+    && (decide (t.alternateSavedCtx.cursorCol ≥ 65535) || decide (t.alternateSavedCtx.cursorRow ≥ 65535))
+
 inductive Finding where
-  | kf1 | kf2 | kf3 | kf6
+  | kf1 | kf2 | kf3 | kf6 | kf7
   deriving DecidableEq, Repr
 
 /-- which known findings apply to a dumped state -/
@@ -164,12 +177,14 @@ def findings (t : Terminal) : List Finding :=
   ++ (if cursorStepFaithful t then []
       else if !step9ModesFaithful t then [Finding.kf1] else [Finding.kf3])
   ++ (if sizeExceedsU16 t then [Finding.kf6] else [])
+  ++ (if parkedCtxExceedsU16 t then [Finding.kf7] else [])
 
 def Finding.label : Finding → String
   | .kf1 => "KF1:dump-step9-CSI-u-restores-other-origin/auto-wrap-modes"
   | .kf2 => "KF2:resized-while-on-alternate-screen(parked-primary-has-stale-geometry)"
   | .kf3 => "KF3:dump-step9-relative-moves-after-CSI-u-stop-at-a-margin"
   | .kf6 => "KF6:size-exceeds-u16-parameter-range"
+  | .kf7 => "KF7:parked-alternate-saved-position-exceeds-u16-parameter-range"
 
 /-- what a finding can disturb in the restored terminal right after the restore:
     KF2 — the parked primary buffer;
@@ -177,7 +192,8 @@ def Finding.label : Finding → String
     pending) the cell re-printed at the last column of the wrong row;
     KF6 — everything `dump()` writes as a number: cursor position (hence the pending wrap), tab stops,
     margins, the positions of both saved contexts, and the cells of both screens (REP counts; a
-    re-print at a wrong position).  Modes, pens, character sets and the parser are still compared. -/
+    re-print at a wrong position).  Modes, pens, character sets and the parser are still compared;
+    KF7 — the position of the parked alternate-screen saved context, nothing else. -/
 def excuse (fs : List Finding) (dumped : Terminal) (t : Terminal) : Terminal :=
   let t := if fs.contains .kf2 then { t with otherBuffer := deadBuffer } else t
   let t := if fs.contains .kf6 then
@@ -186,6 +202,9 @@ def excuse (fs : List Finding) (dumped : Terminal) (t : Terminal) : Terminal :=
              savedCtx := { t.savedCtx with cursorCol := 0, cursorRow := 0 },
              alternateSavedCtx := { t.alternateSavedCtx with cursorCol := 0, cursorRow := 0 },
              buffer := { t.buffer with view := [] }, otherBuffer := { t.otherBuffer with view := [] } }
+    else t
+  let t := if fs.contains .kf7 then
+    { t with alternateSavedCtx := { t.alternateSavedCtx with cursorCol := 0, cursorRow := 0 } }
     else t
   if fs.contains .kf1 || fs.contains .kf3 then
     { t with cursor := { t.cursor with col := 0, row := 0 }, originMode := false, autoWrapMode := false,
